@@ -10,6 +10,129 @@ def t3 (t : Int × Int × Int) : String := s!"{t.1},{t.2.1},{t.2.2}"
 def t2 (t : Int × Int) : String := s!"{t.1},{t.2}"
 def b2s (b : Bool) : String := if b then "1" else "0"
 
+/-- `with_siblings` of harness/c11.cpp: the primary value, followed by `!<other>` for every variant that differs -/
+def fold (primary : String) (others : List String) : String :=
+  others.foldl (fun acc o => if o == primary then acc else acc ++ "!" ++ o) primary
+
+/-! Every generated `± months` / `± years` operator on one case line, in the order of `five` / `plus_months_all` /
+`plus_years_all` of the harness: per type `x + d`, `d + x`, `x - (-d)`, `x += d`, `x -= (-d)`.  A variant is printed as the
+harness prints it: "y,m" (months) or "y" (years) followed by a marker when a field that must survive did not.  The third
+field of year_month_weekday / year_month_weekday_last is an opaque token chosen here (`w + 8*i` / `w`): the generated
+functions only pass it through. -/
+def fmtM2 (ub : Bool) (r : Int × Int) : String := guardUB ub (t2 r)
+def fmtM3 (tag : String) (f0 : Int) (ub : Bool) (r : Int × Int × Int) : String :=
+  guardUB ub (t2 (r.1, r.2.1) ++ (if r.2.2 == f0 then "" else s!",{tag}={r.2.2}"))
+def fmtY2 (m0 : Int) (ub : Bool) (r : Int × Int) : String :=
+  guardUB ub (toString r.1 ++ (if r.2 == m0 then "" else s!",m={r.2}"))
+def fmtY3 (tag : String) (m0 f0 : Int) (ub : Bool) (r : Int × Int × Int) : String :=
+  guardUB ub (toString r.1 ++ (if r.2.1 == m0 then "" else s!",m={r.2.1}") ++ (if r.2.2 == f0 then "" else s!",{tag}={r.2.2}"))
+
+def plusMonthsModel (y m d wi wl k : Int) : String :=
+  let nk := -k
+  let a := fmtM2
+  let b := fmtM3 "day" d
+  let c := fmtM3 "wdi" wi
+  let e := fmtM3 "wdl" wl
+  fold (a (Gen.year_month_plus_ub y m k) (Gen.year_month_plus y m k)) [
+    a (Gen.months_plus_year_month_ub k y m) (Gen.months_plus_year_month k y m),
+    a (Gen.year_month_minus_months_ub y m nk) (Gen.year_month_minus_months y m nk),
+    a (Gen.year_month_add_assign_months_ub y m k) (Gen.year_month_add_assign_months y m k),
+    a (Gen.year_month_sub_assign_months_ub y m nk) (Gen.year_month_sub_assign_months y m nk),
+    b (Gen.ymd_plus_months_ub y m d k) (Gen.ymd_plus_months y m d k),
+    b (Gen.months_plus_ymd_ub k y m d) (Gen.months_plus_ymd k y m d),
+    b (Gen.ymd_minus_months_ub y m d nk) (Gen.ymd_minus_months y m d nk),
+    b (Gen.ymd_add_assign_months_ub y m d k) (Gen.ymd_add_assign_months y m d k),
+    b (Gen.ymd_sub_assign_months_ub y m d nk) (Gen.ymd_sub_assign_months y m d nk),
+    a (Gen.ymdl_plus_months_ub y m k) (Gen.ymdl_plus_months y m k),
+    a (Gen.months_plus_ymdl_ub k y m) (Gen.months_plus_ymdl k y m),
+    a (Gen.ymdl_minus_months_ub y m nk) (Gen.ymdl_minus_months y m nk),
+    a (Gen.ymdl_add_assign_months_ub y m k) (Gen.ymdl_add_assign_months y m k),
+    a (Gen.ymdl_sub_assign_months_ub y m nk) (Gen.ymdl_sub_assign_months y m nk),
+    c (Gen.ymw_plus_months_ub y m wi k) (Gen.ymw_plus_months y m wi k),
+    c (Gen.months_plus_ymw_ub k y m wi) (Gen.months_plus_ymw k y m wi),
+    c (Gen.ymw_minus_months_ub y m wi nk) (Gen.ymw_minus_months y m wi nk),
+    c (Gen.ymw_add_assign_months_ub y m wi k) (Gen.ymw_add_assign_months y m wi k),
+    c (Gen.ymw_sub_assign_months_ub y m wi nk) (Gen.ymw_sub_assign_months y m wi nk),
+    e (Gen.ymwl_plus_months_ub y m wl k) (Gen.ymwl_plus_months y m wl k),
+    e (Gen.months_plus_ymwl_ub k y m wl) (Gen.months_plus_ymwl k y m wl),
+    e (Gen.ymwl_minus_months_ub y m wl nk) (Gen.ymwl_minus_months y m wl nk),
+    e (Gen.ymwl_add_assign_months_ub y m wl k) (Gen.ymwl_add_assign_months y m wl k),
+    e (Gen.ymwl_sub_assign_months_ub y m wl nk) (Gen.ymwl_sub_assign_months y m wl nk)]
+
+def plusMonthsSpec (y m d wi wl k : Int) : String :=
+  let nk := -k
+  let a := fmtM2 true
+  let b := fmtM3 "day" d true
+  let c := fmtM3 "wdi" wi true
+  let e := fmtM3 "wdl" wl true
+  let ym := a (Spec.yearMonthPlus y m k)
+  let ymn := a (Spec.yearMonthPlus y m (- nk))
+  fold ym ([ym, ymn, ym, ymn]
+    ++ [b (Spec.datePlusMonths y m d k), b (Spec.datePlusMonths y m d k), b (Spec.datePlusMonths y m d (- nk)),
+        b (Spec.datePlusMonths y m d k), b (Spec.datePlusMonths y m d (- nk))]
+    ++ [ym, ym, ymn, ym, ymn]
+    ++ [c (Spec.datePlusMonths y m wi k), c (Spec.datePlusMonths y m wi k), c (Spec.datePlusMonths y m wi (- nk)),
+        c (Spec.datePlusMonths y m wi k), c (Spec.datePlusMonths y m wi (- nk))]
+    ++ [e (Spec.datePlusMonths y m wl k), e (Spec.datePlusMonths y m wl k), e (Spec.datePlusMonths y m wl (- nk)),
+        e (Spec.datePlusMonths y m wl k), e (Spec.datePlusMonths y m wl (- nk))])
+
+def plusYearsModel (y m d wi wl k : Int) : String :=
+  let nk := -k
+  let s (ub : Bool) (r : Int) := guardUB ub (toString r)
+  let a := fmtY2 m
+  let b := fmtY3 "day" m d
+  let c := fmtY3 "wdi" m wi
+  let e := fmtY3 "wdl" m wl
+  fold (s (Gen.year_plus_ub y k) (Gen.year_plus y k)) [
+    s (Gen.years_plus_year_ub k y) (Gen.years_plus_year k y),
+    s (Gen.year_minus_ub y nk) (Gen.year_minus y nk),
+    s (Gen.year_add_assign_ub y k) (Gen.year_add_assign y k),
+    s (Gen.year_sub_assign_ub y nk) (Gen.year_sub_assign y nk),
+    a (Gen.year_month_plus_years_ub y m k) (Gen.year_month_plus_years y m k),
+    a (Gen.years_plus_year_month_ub k y m) (Gen.years_plus_year_month k y m),
+    a (Gen.year_month_minus_years_ub y m nk) (Gen.year_month_minus_years y m nk),
+    a (Gen.year_month_add_assign_years_ub y m k) (Gen.year_month_add_assign_years y m k),
+    a (Gen.year_month_sub_assign_years_ub y m nk) (Gen.year_month_sub_assign_years y m nk),
+    b (Gen.ymd_plus_years_ub y m d k) (Gen.ymd_plus_years y m d k),
+    b (Gen.years_plus_ymd_ub k y m d) (Gen.years_plus_ymd k y m d),
+    b (Gen.ymd_minus_years_ub y m d nk) (Gen.ymd_minus_years y m d nk),
+    b (Gen.ymd_add_assign_years_ub y m d k) (Gen.ymd_add_assign_years y m d k),
+    b (Gen.ymd_sub_assign_years_ub y m d nk) (Gen.ymd_sub_assign_years y m d nk),
+    a (Gen.ymdl_plus_years_ub y m k) (Gen.ymdl_plus_years y m k),
+    a (Gen.years_plus_ymdl_ub k y m) (Gen.years_plus_ymdl k y m),
+    a (Gen.ymdl_minus_years_ub y m nk) (Gen.ymdl_minus_years y m nk),
+    a (Gen.ymdl_add_assign_years_ub y m k) (Gen.ymdl_add_assign_years y m k),
+    a (Gen.ymdl_sub_assign_years_ub y m nk) (Gen.ymdl_sub_assign_years y m nk),
+    c (Gen.ymw_plus_years_ub y m wi k) (Gen.ymw_plus_years y m wi k),
+    c (Gen.years_plus_ymw_ub k y m wi) (Gen.years_plus_ymw k y m wi),
+    c (Gen.ymw_minus_years_ub y m wi nk) (Gen.ymw_minus_years y m wi nk),
+    c (Gen.ymw_add_assign_years_ub y m wi k) (Gen.ymw_add_assign_years y m wi k),
+    c (Gen.ymw_sub_assign_years_ub y m wi nk) (Gen.ymw_sub_assign_years y m wi nk),
+    e (Gen.ymwl_plus_years_ub y m wl k) (Gen.ymwl_plus_years y m wl k),
+    e (Gen.years_plus_ymwl_ub k y m wl) (Gen.years_plus_ymwl k y m wl),
+    e (Gen.ymwl_minus_years_ub y m wl nk) (Gen.ymwl_minus_years y m wl nk),
+    e (Gen.ymwl_add_assign_years_ub y m wl k) (Gen.ymwl_add_assign_years y m wl k),
+    e (Gen.ymwl_sub_assign_years_ub y m wl nk) (Gen.ymwl_sub_assign_years y m wl nk)]
+
+def plusYearsSpec (y m d wi wl k : Int) : String :=
+  let nk := -k
+  let a := fmtY2 m true
+  let b := fmtY3 "day" m d true
+  let c := fmtY3 "wdi" m wi true
+  let e := fmtY3 "wdl" m wl true
+  let yp := toString (y + k)
+  let yn := toString (y - nk)
+  let ym := a (Spec.yearMonthPlusYears y m k)
+  let ymn := a (Spec.yearMonthPlusYears y m (- nk))
+  fold yp ([yp, yn, yp, yn] ++ [ym, ym, ymn, ym, ymn]
+    ++ [b (Spec.datePlusYears y m d k), b (Spec.datePlusYears y m d k), b (Spec.datePlusYears y m d (- nk)),
+        b (Spec.datePlusYears y m d k), b (Spec.datePlusYears y m d (- nk))]
+    ++ [ym, ym, ymn, ym, ymn]
+    ++ [c (Spec.datePlusYears y m wi k), c (Spec.datePlusYears y m wi k), c (Spec.datePlusYears y m wi (- nk)),
+        c (Spec.datePlusYears y m wi k), c (Spec.datePlusYears y m wi (- nk))]
+    ++ [e (Spec.datePlusYears y m wl k), e (Spec.datePlusYears y m wl k), e (Spec.datePlusYears y m wl (- nk)),
+        e (Spec.datePlusYears y m wl k), e (Spec.datePlusYears y m wl (- nk))])
+
 def step (_ : Unit) (l : Line) : Unit × String :=
   let bad := ((), "bad-op\tbad-op")
   let out (m s : String) := ((), m ++ "\t" ++ s)
@@ -49,7 +172,15 @@ def step (_ : Unit) (l : Line) : Unit × String :=
     | _, _ => bad
   | "month_plus" =>
     match l.int? "m", l.int? "k" with
-    | some m, some k => out (guardUB (Gen.month_plus_ub m k) (toString (Gen.month_plus m k))) (toString (Spec.monthPlus m k))
+    | some m, some k =>
+      -- month + months, months + month, month - (-months), +=, -= (-months): the harness folds them the same way
+      let s (ub : Bool) (r : Int) := guardUB ub (toString r)
+      out (fold (s (Gen.month_plus_ub m k) (Gen.month_plus m k)) [
+            s (Gen.months_plus_month_ub k m) (Gen.months_plus_month k m),
+            s (Gen.month_minus_ub m (-k)) (Gen.month_minus m (-k)),
+            s (Gen.month_add_assign_ub m k) (Gen.month_add_assign m k),
+            s (Gen.month_sub_assign_ub m (-k)) (Gen.month_sub_assign m (-k))])
+        (toString (Spec.monthPlus m k))
     | _, _ => bad
   | "month_diff" =>
     match l.int? "a", l.int? "b" with
@@ -58,11 +189,22 @@ def step (_ : Unit) (l : Line) : Unit × String :=
   | "ym_plus" =>
     match l.int? "y", l.int? "m", l.int? "k" with
     | some y, some m, some k =>
-      out (guardUB (Gen.year_month_plus_ub y m k) (t2 (Gen.year_month_plus y m k))) (t2 (Spec.yearMonthPlus y m k))
+      -- optional keys: day d (28), weekday w (3), index i (3); the harness constructs year{y}, month{m}, day{d}, weekday{w}
+      let d := Gen.mkDay ((l.int? "d").getD 28)
+      let w := Gen.mkWeekday ((l.int? "w").getD 3)
+      let i := (l.int? "i").getD 3
+      let (yy, mm) := (Gen.mkYear y, Gen.mkMonth m)
+      out (plusMonthsModel yy mm d (w + 8 * i) w k) (plusMonthsSpec yy mm d (w + 8 * i) w k)
     | _, _, _ => bad
   | "year_plus" =>
     match l.int? "y", l.int? "k" with
-    | some y, some k => out (guardUB (Gen.year_plus_ub y k) (toString (Gen.year_plus y k))) (toString (y + k))
+    | some y, some k =>
+      let m := Gen.mkMonth ((l.int? "m").getD 7)
+      let d := Gen.mkDay ((l.int? "d").getD 28)
+      let w := Gen.mkWeekday ((l.int? "w").getD 3)
+      let i := (l.int? "i").getD 3
+      let yy := Gen.mkYear y
+      out (plusYearsModel yy m d (w + 8 * i) w k) (plusYearsSpec yy m d (w + 8 * i) w k)
     | _, _ => bad
   | "wd_plus" =>
     match l.int? "w", l.int? "k" with
@@ -82,8 +224,19 @@ def step (_ : Unit) (l : Line) : Unit × String :=
     | _, _ => bad
   | "year_diff" =>
     match l.int? "a", l.int? "b" with
-    | some a, some b => let r := toString (a - b); out r r
+    | some a, some b =>
+      let (ya, yb) := (Gen.mkYear a, Gen.mkYear b)
+      out (guardUB (Gen.year_diff_ub ya yb) (toString (Gen.year_diff ya yb))) (toString (a - b))
     | _, _ => bad
+  | "ym_diff" =>
+    -- year_month - year_month ([time.cal.ym.nonmembers]); the second value checks ym2 + (ym1 - ym2) == ym1
+    match l.int? "y1", l.int? "m1", l.int? "y2", l.int? "m2" with
+    | some y1, some m1, some y2, some m2 =>
+      let (a, b, c, d) := (Gen.mkYear y1, Gen.mkMonth m1, Gen.mkYear y2, Gen.mkMonth m2)
+      let k := Gen.year_month_diff a b c d
+      out (guardUB (Gen.year_month_diff_ub a b c d) s!"{k},{t2 (Gen.year_month_plus c d k)}")
+        s!"{Spec.yearMonthDiff y1 m1 y2 m2},{y1},{m1}"
+    | _, _, _, _ => bad
   | "incdec" =>
     -- ++x, x++ (old*K + new), --x, x-- (old*K + new) [, iso_encoding]: wrap 12 -> 1 / 1 -> 12 for months, 6 -> 0 / 0 -> 6 for
     -- weekdays (through the generated month_plus / weekday_plus / weekday_minus), plain ±1 for day and year
@@ -99,7 +252,7 @@ def step (_ : Unit) (l : Line) : Unit × String :=
       let up := Gen.weekday_plus v 1
       let dn := Gen.weekday_minus v 1
       let iso : Int := if v == 0 then 7 else v
-      let m := s!"{up},{v * 1000 + up},{dn},{v * 1000 + dn},{iso}"
+      let m := s!"{up},{v * 1000 + up},{dn},{v * 1000 + dn},{Gen.weekday_iso_encoding v}"
       let su := Spec.weekdayPlus v 1
       let sd := Spec.weekdayPlus v (-1)
       out m s!"{su},{v * 1000 + su},{sd},{v * 1000 + sd},{iso}"
@@ -121,7 +274,12 @@ def step (_ : Unit) (l : Line) : Unit × String :=
       -- month_day: day within the longest possible length of that month (February: 29)
       let mdok := mok && decide (1 ≤ d) && decide (d ≤ (if m == 2 then 29 else (Spec.monthLength 2001 m.toNat : Int)))
       let r := String.join [b2s mdok, b2s (wok && iok), b2s (mok && wok && iok), b2s (mok && wok), b2s (yok && mok), b2s (yok && mok), b2s mok]
-      out r r
+      -- year_month::ok, year_month_day_last::ok, month_day_last::ok: the generated functions (on year{y}, month{m})
+      let (yy, mm) := (Gen.mkYear y, Gen.mkMonth m)
+      let g := String.join [b2s mdok, b2s (wok && iok), b2s (mok && wok && iok), b2s (mok && wok),
+        guardUB (Gen.year_month_ok_ub yy mm) (b2s (Gen.year_month_ok yy mm)), guardUB (Gen.ymdl_ok_ub yy mm) (b2s (Gen.ymdl_ok yy mm)),
+        guardUB (Gen.month_day_last_ok_ub mm) (b2s (Gen.month_day_last_ok mm))]
+      out g r
     | _, _, _, _, _ => bad
   -- weekday-indexed dates: no generated model yet; the implementation is compared with the spec (and the spec with std)
   | "ymw" =>
